@@ -6,6 +6,7 @@ import (
 	"github.com/crossplane/crossplane/verifsim/runner"
 
 	_ "github.com/crossplane/crossplane/verifsim/props/c01"
+	_ "github.com/crossplane/crossplane/verifsim/props/c02"
 	_ "github.com/crossplane/crossplane/verifsim/props/c03"
 	_ "github.com/crossplane/crossplane/verifsim/props/c06"
 	_ "github.com/crossplane/crossplane/verifsim/props/c08"
